@@ -52,3 +52,10 @@ VARIANTS = [
     M('C10', 'refactor-logging-added', E(RT, "        mode = 'wb' if binary else 'w'\n", "        mode = 'wb' if binary else 'w'\n        if self.verbose and self.print_fn:\n            self.print_fn('Writing %s' % reference_path)\n"),
       kind='refactor'),
 ]
+
+VARIANTS += [
+    M('C10', 'empty-kind-means-all-kinds', E(RT, "        cls.regenerate[kind] = regenerate", "        cls.regenerate[kind or None] = regenerate"), rule='C10-WHOSETS', key='set_regeneration::key'),
+    M('C10', 'reference-lines-by-file-iteration', E(CF, "                content = f.read()\n                expected_ends_with_newline = content.endswith('\\n')\n                expected = content.splitlines()\n        except IOError:\n            self.info(msgs, 'Reference file %s not found.' % expected_path)\n            self.add_failures(msgs, None, None, expected_path, actual=actual)",
+                                                    "                expected = [line.rstrip('\\n') for line in f]\n                expected_ends_with_newline = True\n        except IOError:\n            self.info(msgs, 'Reference file %s not found.' % expected_path)\n            self.add_failures(msgs, None, None, expected_path, actual=actual)"),
+      rule='C10-SPLIT', key='check_string_against_file'),
+]
